@@ -51,6 +51,24 @@ CLAIMS = {
              note="Python object identity is modelled as creation ordinal; operations on nodes that are not members are outside the property.",
              tech="Coq proof: refinement of a pointer heap to a list (pointwise successor/predecessor invariant), induction over histories; differential correspondence",
              ref="DESIGN.md §4 C08"),
+ "C06": dict(text="Coq theorems over all capacities >= 1 and all histories: every public operation (views, get, pop, popitem, clear, "
+             "update, setdefault, in, ==) is a finite sequence of the three primitives (so it terminates); bounded size and one value per "
+             "key in every reachable state; lookup/store/delete specifications incl. exact eviction of the last key; the order is recency "
+             "(ghost time stamps: each key last used strictly later than all keys after it), so the evicted key is the least recently "
+             "used; items/values/== /pop/popitem/setdefault agree with the content. Tied to /repo by comparing result, list(cache) and "
+             "len(cache) after every operation of exhaustive short and random long histories over two caches.",
+             note="collections.abc mix-ins are expanded as CPython 3.12 defines them; whether `in` counts as a use and whether views look "
+                  "keys up are calibrated against the implementation each run (the property leaves both open; the theorems hold for both). "
+                  "The cache's linked list is represented by its abstract sequence (justified by C08).",
+             tech="Coq proof: invariants over primitive histories, ghost-timestamp recency invariant, generic mix-in specifications; differential correspondence",
+             ref="DESIGN.md §4 C06"),
+ "C07": dict(text="Coq theorems over all capacities >= 1 and all histories: invariant (size bound, one entry per key, counts non-decreasing "
+             "along the iteration order, counts >= 1) in every reachable state; a use adds exactly one to that key's count and changes "
+             "nothing else, a new key starts at 1; a store makes the value current (store-then-lookup); a full cache drops the first entry "
+             "whose count is minimal; views/==/pop/popitem/setdefault agree with the content and terminate. Same tie as C06.",
+             note="as C06.",
+             tech="Coq proof: sortedness/permutation invariants of the count-ordered list, generic mix-in specifications; differential correspondence",
+             ref="DESIGN.md §4 C07"),
 }
 ALL = ["C%02d" % i for i in range(1, 21)]
 def chk(pid, c):
